@@ -78,7 +78,7 @@ AscCases(tier, p) ==
        (IF p = 1 THEN AscSingles(Hs({1}), SeqsUpTo(3, AscPlain)) \cup AscSingles(Hs({2, 3}), SeqsUpTo(2, AscPlain))
         ELSE IF p = 2 THEN AscPairs(2)
         ELSE AscSingles(Hs(1..3), With(SeqsUpTo(2, AscCore), AscKF)))
-  ELSE (IF p = 1 THEN AscSingles(Hs(1..3), SeqsUpTo(4, AscPlain))
+  ELSE (IF p = 1 THEN AscSingles(Hs({1}), SeqsUpTo(4, AscPlain)) \cup AscSingles(Hs({2, 3}), SeqsUpTo(3, AscPlain))
         ELSE IF p = 2 THEN AscPairs(3)
         ELSE AscSingles(Hs(1..3), With(SeqsUpTo(3, AscCore \cup AscMore), AscKF \cup AscMore)))
 
@@ -139,8 +139,8 @@ GlSingles(n) == {<<File(sx, FALSE, NoT, NoT, sq)>> : sx \in {0}, sq \in SeqsUpTo
 GlPairsOf(R) == {<<File(255, FALSE, NoT, NoT, a), File(5, FALSE, NoT, NoT, b)>> : a, b \in SeqsFromTo(1, 2, R)}
 GlPairs == GlPairsOf({x \in GlA : x.k = "rec" /\ x.lvl \in {"INF", "SEV", "ERR"}})
 GlCases(tier, p) ==
-  IF p = 1 THEN GlSingles(IF tier = "tiny" THEN 2 ELSE IF tier = "quick" THEN 3 ELSE 5)
-  ELSE IF p = 2 THEN GlPairs ELSE {}
+  IF p = 1 THEN GlSingles(IF tier = "tiny" THEN 2 ELSE IF tier = "quick" THEN 3 ELSE 4)
+  ELSE IF p = 2 THEN (IF tier = "thorough" THEN GlPairsOf({x \in GlA : x.k = "rec"}) ELSE GlPairs) ELSE {}
 MCCases(p) == IF Kind = "asc" THEN AscCases(Tier, p) ELSE IF Kind = "logcat" THEN LcCases(Tier, p) ELSE GlCases(Tier, p)
 
 \* calendar self-check and anchors (evaluated once)
